@@ -277,7 +277,7 @@ impl Prop for Sessions {
         600
     }
     fn cases(&self, tier: Tier) -> u64 {
-        tier.pick(30_000, 1_000_000)
+        tier.pick(30_000, 4_000_000)
     }
     fn generate(&self, g: &mut Gen) -> Case {
         let universe = gen_universe(
